@@ -172,7 +172,11 @@ bool varintBP128IsBeneficial64(const uint64_t *values, size_t count);
 bool varintBP128IsSorted32(const uint32_t *values, size_t count);
 bool varintBP128IsSorted64(const uint64_t *values, size_t count);
 
-/* Get number of values in encoded data without decoding */
+/* Get number of values in encoded data without decoding.
+ * Only valid for data written by varintBP128Encode64: that is the only
+ * layout that stores its element count (as a leading tagged varint).
+ * varintBP128Encode32 data starts with a block header and the delta layouts
+ * start with the first value, so for those keep varintBP128Meta.count. */
 size_t varintBP128GetCount(const uint8_t *src, size_t srcBytes);
 
 #ifdef VARINT_BP128_TEST
